@@ -11,6 +11,8 @@ TABLE = {
             ('OpyVerif.Proofs.C03', 'Opy', r'clip_precedes_hook|sweep_follows_hook'),
             ('OpyVerif.Generated.Skeletons', 'Opy.Gen', r'skel_\w+_good|evalSites_ok|evalSites_nonempty')],
     'C02': [('OpyVerif.Proofs.C02', 'Opy', None),
+            ('OpyVerif.Proofs.Accept', 'Opy', r'best_site_is_sweep_rule|accept_takes_better'),
+            ('OpyVerif.Generated.Accepts', 'Opy.Gen', r'acceptSites_ok|best_sites_present'),
             ('OpyVerif.Proofs.Lemmas.MachineInv', 'Opy', r'inv_(apply|run|init)'),
             ('OpyVerif.Generated.Constants', 'Opy.Gen', r'floatMax_is_sys_max')],
     'C03': [('OpyVerif.Proofs.C03', 'Opy', None),
@@ -26,7 +28,9 @@ TABLE = {
             ('OpyVerif.Generated.Guards', 'Opy.Gen', r'guard_mismatches|guardTable_size'),
             ('OpyVerif.Proofs.C14', 'Opy.G', r'agree_sound|accepts_iff_all_domains'),
             ('OpyVerif.Proofs.C18real', 'Opy', r'uniformAffine_mem')],
-    'C07': [('OpyVerif.Proofs.C07', 'Opy', None)],
+    'C07': [('OpyVerif.Proofs.C07', 'Opy', None),
+            ('OpyVerif.Proofs.Accept', 'Opy', r'accept_private|accept_pair'),
+            ('OpyVerif.Generated.Accepts', 'Opy.Gen', r'acceptSites_ok')],
     'C08': [('OpyVerif.Proofs.C08ops', 'Opy.PNode', None), ('OpyVerif.Proofs.C08grow', 'Opy.PNode', None),
             ('OpyVerif.Generated.Constants', 'Opy.Gen', r'nArgs_')],
     'C09': [('OpyVerif.Proofs.C09', 'Opy.PNode', None), ('OpyVerif.Proofs.C09repro', 'Opy.PNode', None)],
@@ -47,6 +51,8 @@ TABLE = {
     'C19': [('OpyVerif.Proofs.C19', 'Opy', None),
             ('OpyVerif.Proofs.C04', 'Opy', r'load_after_save|lookup_loadInto_saved')],
     'C20': [('OpyVerif.Proofs.C20', 'Opy', None),
+            ('OpyVerif.Proofs.Accept', 'Opy', r'accept_never_worse|accept_pair'),
+            ('OpyVerif.Generated.Accepts', 'Opy.Gen', r'acceptSites_ok|replacing_sites'),
             ('OpyVerif.Proofs.C06', 'Opy', r'clipPos_fixed'),
             ('OpyVerif.Proofs.Lemmas.MachineInv', 'Opy', r'inv_(apply|run|init)')],
 }
